@@ -21,8 +21,8 @@ import (
 	"sigs.k8s.io/karpenter/pkg/cloudprovider/fake"
 	"sigs.k8s.io/karpenter/pkg/controllers/dynamicresources/deviceallocation"
 	"sigs.k8s.io/karpenter/pkg/controllers/provisioning"
-	static "sigs.k8s.io/karpenter/pkg/controllers/static/provisioning"
 	"sigs.k8s.io/karpenter/pkg/controllers/state"
+	static "sigs.k8s.io/karpenter/pkg/controllers/static/provisioning"
 	"sigs.k8s.io/karpenter/pkg/events"
 	"sigs.k8s.io/karpenter/pkg/state/virtualpods"
 	"sigs.k8s.io/karpenter/pkg/test"
@@ -208,7 +208,7 @@ func runS(c *kit.Ctx, r *kit.Rand) {
 func partS(c *kit.Ctx) int {
 	n := 150
 	if c.Thorough() {
-		n = 2000
+		n = 1500
 	}
 	for i := 0; i < n; i++ {
 		runS(c, c.Rand.Fork())
